@@ -51,6 +51,8 @@ pub enum WOp {
     End,
     Pos,
     Len,
+    /// drop this walker and create a fresh one (other walkers stay as they are)
+    Renew,
 }
 
 #[derive(Clone, Debug, PartialEq, Eq)]
@@ -115,6 +117,10 @@ pub enum Op {
     ClearOutcome,
     SetAuto(u8),
     Fork,
+    /// Re-creates the (still empty) chain through another constructor: 0 `new`, 1 `from_fen`
+    /// of the harness's FEN text, 2 `from_uci_list(b, "")`, 3 `new_initial()`, 4 `default()`
+    /// (3 and 4 only when the start is the initial position)
+    Construct(u8),
     /// variant = v % 10, index seed = v / 10
     EqTwin(u16),
     RebuildMoves,
@@ -359,6 +365,7 @@ impl WOp {
             WOp::End => 'e',
             WOp::Pos => 'q',
             WOp::Len => 'l',
+            WOp::Renew => 'r',
         }
     }
     fn from_letter(c: char) -> Option<WOp> {
@@ -369,6 +376,7 @@ impl WOp {
             'e' => WOp::End,
             'q' => WOp::Pos,
             'l' => WOp::Len,
+            'r' => WOp::Renew,
             _ => return None,
         })
     }
@@ -513,6 +521,7 @@ impl Op {
             Op::ClearOutcome => "clear_outcome".into(),
             Op::SetAuto(f) => format!("set_auto_outcome {}", f),
             Op::Fork => "fork".into(),
+            Op::Construct(k) => format!("construct {}", k),
             Op::EqTwin(v) => format!("eq_twin {}", v),
             Op::RebuildMoves => "rebuild_moves".into(),
             Op::RebuildUci => "rebuild_uci".into(),
@@ -562,6 +571,7 @@ impl Op {
             "clear_outcome" => Op::ClearOutcome,
             "set_auto_outcome" => Op::SetAuto(t.get(1)?.parse().ok()?),
             "fork" => Op::Fork,
+            "construct" => Op::Construct(t.get(1)?.parse().ok()?),
             "eq_twin" => Op::EqTwin(t.get(1)?.parse().ok()?),
             "rebuild_moves" => Op::RebuildMoves,
             "rebuild_uci" => Op::RebuildUci,
